@@ -406,7 +406,15 @@ impl<F: Write + Seek> MiniAllocator<F> {
             .directory
             .open_chain(self.minifat_start_sector, SectorInit::Fat)?;
         let offset = (index as u64) * size_of::<u32>() as u64;
-        debug_assert!(chain.len() >= offset + size_of::<u32>() as u64);
+        if chain.len() < offset + size_of::<u32>() as u64 {
+            // Possible in a damaged file, e.g. when another stream's chain
+            // runs into the MiniFAT chain and truncating it cut this one.
+            invalid_data!(
+                "MiniFAT entry {} lies beyond the MiniFAT chain ({} bytes)",
+                index,
+                chain.len()
+            );
+        }
         chain.seek(SeekFrom::Start(offset))?;
         chain.write_le_u32(value)?;
         if (index as usize) == self.minifat.len() {
